@@ -17,6 +17,12 @@ pub struct Live<const L: usize> {
     pub dead: bool,
     /// number of reloads whose JSON text has been printed (`J` lines) in this history
     pub json_done: usize,
+    /// number of file snapshots written so far in this history
+    pub files_done: usize,
+    /// an earlier snapshot file that nothing has overwritten since, with the compact text of the book it was
+    /// written from: reading it back later must still give that book (C07: "a JSON snapshot restores ..." whatever
+    /// other snapshots have been written to OTHER paths meanwhile)
+    pub kept_file: Option<(std::path::PathBuf, String)>,
 }
 
 /// `J` lines are bulky (two full texts and a dozen variants per reload): at most this many reloads per
@@ -128,6 +134,8 @@ impl<const L: usize> Live<L> {
             scratch,
             dead: false,
             json_done: 0,
+            files_done: 0,
+            kept_file: None,
         })
     }
 
@@ -146,12 +154,28 @@ impl<const L: usize> Live<L> {
             }
             "compact" | "pretty" => {
                 std::fs::create_dir_all(&self.scratch).map_err(|e| e.to_string())?;
-                let path = self.scratch.join("snap.json");
+                // file names: every other snapshot goes to the same path `snap.json` (deliberately left in place: the
+                // next save there overwrites a longer or shorter file), the others to fresh sibling paths with dotted
+                // names that are not `.json` (`snap.1`, `snap.3`, ...)
+                let k = self.files_done;
+                self.files_done += 1;
+                let path = if k % 2 == 0 { self.scratch.join("snap.json") } else { self.scratch.join(format!("snap.{}", k)) };
                 self.book
                     .save_json(&path, mode == "pretty")
                     .map_err(|e| e.to_string())?;
-                // the snapshot file is deliberately left in place: the next save overwrites it
-                OrderBook::<L>::load_json(&path).map_err(|e| e.to_string())?
+                let loaded = OrderBook::<L>::load_json(&path).map_err(|e| e.to_string())?;
+                // an earlier snapshot at another path must still read back as the book it was written from
+                if let Some((p0, text0)) = &self.kept_file {
+                    let back = OrderBook::<L>::load_json(p0).map_err(|e| format!("earlier snapshot no longer loads: {}", e))?;
+                    let t = serde_json::to_string(&back).map_err(|e| e.to_string())?;
+                    if &t != text0 {
+                        return Err("STALE:an earlier snapshot file (another path) now loads as a different book".into());
+                    }
+                }
+                if k % 2 == 1 && self.kept_file.is_none() {
+                    self.kept_file = Some((path.clone(), serde_json::to_string(&self.book).map_err(|e| e.to_string())?));
+                }
+                loaded
             }
             m if m.starts_with("shift:") => {
                 let k: u64 = m[6..].parse().map_err(|_| "bad shift".to_string())?;
